@@ -229,7 +229,33 @@ class TrS(ec.Tr):
     def apply(self, fn, e, args, prefix=None):
         if getattr(fn, 'pre', None):
             prefix = (fn.pre + (' ' + prefix if prefix else ''))
+        self.check_forwarding(fn, e, args)
         return super().apply(fn, e, args, prefix)
+
+    def check_forwarding(self, fn, e, args):
+        """A function that HAS index-mapper parameters must hand them on to every callee that takes a mapper of the
+        same class: omitting the keyword lets the callee fall back to its default map while the caller assembles the
+        rest with the map it was given (the defect repaired by 4559c7d).  Every forwarded pair is recorded and
+        emitted as `mapper_forwarding`."""
+        callee = getattr(fn, 'mappers', None) or {}
+        caller = {n: v[1][1] for n, v in self.env.items() if isinstance(v[1], tuple) and len(v[1]) == 2 and v[1][0] == 'mapper'}
+        if not callee or not caller or self.rel not in (F_SS, F_CSS):
+            return
+        given = {k.arg: k.value for k in e.keywords}
+        extra = list(args[len(fn.params):])
+        for (mn, _), a in zip(callee.items(), extra):
+            given.setdefault(mn, a)
+        for mn, mf in callee.items():
+            cands = [cn for cn, cf in caller.items() if cf is mf]
+            if not cands:
+                continue
+            val = given.get(mn)
+            if val is None:
+                self.no(e, f'{fn.lean}(…): the mapper parameter {mn} is not forwarded — the callee would use its default map '
+                           f'while this function was given {"/".join(cands)}')
+            if not (isinstance(val, ast.Name) and val.id in cands):
+                self.no(e, f'{fn.lean}(…): {mn} is not one of the mapper parameters {cands} of the calling function')
+            self.g.forwarding.append((getattr(e, 'lineno', 0), fn.lean, mn, val.id))
 
     def np_call(self, e):
         n = e.func.attr
@@ -433,6 +459,7 @@ class GenS(ec.Gen):
 
     def __init__(self, src):
         super().__init__(src)
+        self.forwarding = []          # (line, callee, callee mapper parameter, forwarded caller parameter)
         super().run()                 # populates the tables of the core functions (output discarded)
         self.out = []
         self.trees.update({f: parse(src, f) for f in (F_SS, F_CSS, F_SP)})
@@ -549,6 +576,13 @@ class GenS(ec.Gen):
         self.circuit_wrapper()
         # ------------------------------------------------------------ container checks
         self.container(sp)
+        w('/-- index-mapper parameters handed on inside the state-space builder: (callee, its mapper parameter, the')
+        w('caller\'s parameter it receives).  A callee that takes a map of the same class as one of the caller\'s parameters')
+        w('must receive that parameter (otherwise the translator refuses); the definitions above are stated for the default')
+        w('maps, this table shows that a non-default map reaches every place the default one is used in. -/')
+        w('def mapper_forwarding : List (String × String × String) := [' +
+          ', '.join(f'({lean_str(c)}, {lean_str(m)}, {lean_str(v)})' for _, c, m, v in sorted(set(self.forwarding))) + ']')
+        w()
         w('end'); w()
         w('end CC.Gen.State')
         return '\n'.join(self.out) + '\n'
